@@ -2346,6 +2346,14 @@ int32_t tls13EncodeAlert(ssl_t *ssl,
         if (rc == SSL_FULL)
         {
             *requiredLen = messageSize;
+            if (mustEncrypt)
+            {
+                /* inner content type, record padding (a fixed length or at
+                   most one block; only one of the two is configured) and
+                   the AEAD tag */
+                *requiredLen += 1 + ssl->tls13PadLen + ssl->tls13BlockSize +
+                    TLS_GCM_TAG_LEN;
+            }
         }
         return rc;
     }
